@@ -1,7 +1,16 @@
 """C11 — parsing is total and prompt.  Proof: scanner termination (structural) and the LR
 certificate theorem over the regenerated tables.  Tie: the implementation is run on every text
 of the stream under a watchdog; it must never hang or panic, and must agree with the model (which
-provably does neither) on whether a result is produced."""
+provably does neither) on whether a result is produced.
+Self-test (mutations tried in the worktree; /repo untouched):
+  T1  parser.y.go tables (scratch copy via VERIF_REPO): gritsDef[95] := 32 (a state that reduces the
+      empty production and returns to itself) -> z3 finds no weights, gen/LRCert.v is empty,
+      proofs/LRCertInst.v (cert_ok) fails, 47/68 obligations discharged, the extracted model reports
+      HANG on 5 generated texts: `VIOLATION ... no-failing-input-found` (the unmutated probe is fine).
+  S1  Scan.v: a single-character token consumes nothing -> proofs/ScanProofs.v (scan1_body_progress) fails.
+  S3  Expand.v: drop the has_illegal test -> ParseTotal.v, ParseSound.v, IllegalReject.v fail.
+  F28 (real finding) is detected by the growth families: bytes allocated grow by a factor 14-15 for 4x input.
+"""
 import json
 import time
 
@@ -11,6 +20,7 @@ from .. import textgen as T
 
 PROP = "C11"
 PROP_V = "theories/props/C11.v"
+MODEL_AREAS = ('front',)
 
 
 def outcome_class(obs):
@@ -21,29 +31,88 @@ def outcome_class(obs):
     return obs.split()[0]    # HANG / PANIC / CRASH / EXN / MISSING
 
 
-def big_inputs(rng_seed):
-    """large inputs for the promptness part (linear growth): nested parentheses, long label, many
-    declarations, long comment, deep type"""
+def rep(n, f, sep):
+    return sep.join(f(i) for i in range(n))
+
+
+# growth families: one construct repeated n times; parsing time must grow (at most) linearly in n
+FAMILIES = {
+    "decls": lambda n: rep(n, lambda i: "prc[p%d] : 1 = close self" % i, "\n"),
+    "types": lambda n: rep(n, lambda i: "type A%d = 1" % i, "\n"),
+    "funs": lambda n: rep(n, lambda i: "let f%d() : 1 = close self" % i, "\n"),
+    "names": lambda n: "prc[" + rep(n, lambda i: "a%d" % i, ",") + "] : 1 = close self",
+    "callargs": lambda n: "prc[a] : 1 = f(" + rep(n, lambda i: "a%d" % i, ",") + ")",
+    "params": lambda n: "let f(" + rep(n, lambda i: "a%d : 1" % i, ",") + ") : 1 = close self",
+    "assume": lambda n: "assuming " + rep(n, lambda i: "a%d : 1" % i, ","),
+    "options": lambda n: "type A = +{" + rep(n, lambda i: "l%d : 1" % i, ",") + "}",
+    "branches": lambda n: "prc[a] : 1 = case b (" + rep(n, lambda i: "l%d<x> => close self" % i, "|") + ")",
+    "parens": lambda n: "prc[a] : 1 = " + "(" * n + "close self" + ")" * n,
+    "prints": lambda n: "prc[a] : 1 = " + "print l; " * n + "close self",
+    "tensor": lambda n: "type A = " + " * ".join(["1"] * n),
+    "typeleft": lambda n: "type A = " + "(" * n + "1" + " * 1)" * n,
+    "label": lambda n: "prc[" + "a" * (8 * n) + "] : 1 = close self",
+    "comment": lambda n: "/*" + "* /" * (4 * n) + "*/ prc[a] : 1 = close self",
+    "linecomments": lambda n: "// c\n" * (4 * n) + "prc[a] : 1 = close self",
+    "whitespace": lambda n: " \n\t" * (8 * n) + "prc[a] : 1 = close self",
+    "unterminated": lambda n: "prc[a] : 1 = close self /*" + "x" * (8 * n),
+    "illegal_tail": lambda n: "prc[a] : 1 = close self @" + "x y " * (4 * n),
+    # F30: a doubling chain of unannotated type definitions (depth grows with log n, capped)
+    "typechain": lambda n: "\n".join("type A%d = A%d * A%d" % (i, i + 1, i + 1) for i in range(min(16, 2 * n.bit_length() - 4)))
+                           + "\ntype A%d = 1\n" % min(16, 2 * n.bit_length() - 4),
+}
+F30_FAMILIES = {"typechain"}
+# F28: families that go through a right-recursive list rule whose action prepends with a full copy
+F28_FAMILIES = {"decls", "types", "funs", "names", "callargs", "params", "assume", "options"}
+
+
+def garbage(rng_seed, n):
     import random
     rng = random.Random(rng_seed)
-    n = 4000
-    return [
-        ("big:parens", "big", "prc[a] : 1 = " + "(" * n + "close self" + ")" * n),
-        ("big:label", "big", "prc[" + "a" * (8 * n) + "] : 1 = close self"),
-        ("big:decls", "big", "\n".join("prc[p%d] : 1 = close self" % i for i in range(n))),
-        ("big:comment", "big", "/*" + "* /" * (4 * n) + "*/ prc[a] : 1 = close self"),
-        ("big:type", "big", "type A = " + " * ".join(["1"] * n)),
-        ("big:typeleft", "big", "type A = " + "(" * n + "1" + " * 1)" * n),
-        ("big:prints", "big", "prc[a] : 1 = " + "print l; " * n + "close self"),
-        ("big:garbage", "big", "".join(rng.choice("()[]<>;:,.|+-*&{}1 ax") for _ in range(8 * n))),
-        ("big:unterminated", "big", "prc[a] : 1 = close self /*" + "x" * (8 * n)),
-    ]
+    return "".join(rng.choice("()[]<>;:,.|+-*&{}1 ax") for _ in range(8 * n))
+
+
+GROWTH_N = {"quick": 250, "thorough": 2000}
+
+
+def measure_growth(b, tier, only=None):
+    """run every family at sizes n and 4n (own probe process per family, 60 s watchdog);
+    returns {family: (n, (us, bytes, verdict) at n, (us, bytes, verdict) at 4n, len(text 4n))}"""
+    n = GROWTH_N[tier if tier in GROWTH_N else "quick"]
+    res = {}
+    for fam, g in FAMILIES.items():
+        if only is not None and fam not in only:
+            continue
+        cases = [("%s:%d" % (fam, n), "growth", g(n)), ("%s:%d" % (fam, 4 * n), "growth", g(4 * n))]
+        out = S.run_tool(b.probe, "parsetime", cases, timeout=200)
+        row = []
+        for i, _, _ in cases:
+            o = out.get(i, "MISSING").split("\t")
+            if len(o) == 3 and o[0].isdigit() and o[1].isdigit():
+                row.append((int(o[0]), int(o[1]), o[2]))
+            else:
+                row.append((None, None, o[0]))
+        res[fam] = (n, row[0], row[1], len(cases[1][2]))
+    return res
+
+
+def superlinear(row):
+    """Linear growth is a factor 4 from n to 4n.  Criterion (deterministic, independent of the load
+    of the machine): the number of BYTES ALLOCATED by one ParseString call grows by more than a
+    factor 8 and exceeds 8 MB.  Wall time is recorded too; no result within the 60 s watchdog is
+    reported as well.  (A superlinear cost that allocates nothing would show only as a hang.)"""
+    n, (t1, a1, v1), (t4, a4, v4), _ = row
+    if a1 is None or a4 is None:
+        return "no result within the 60 s watchdog (%s / %s)" % (v1, v4)
+    if a4 > 8000000 and a4 > 8 * max(a1, 100000):
+        return ("memory allocated by one ParseString call grows by a factor %.1f when the input grows by 4 "
+                "(%.1f MB -> %.1f MB; wall %.1f ms -> %.1f ms)" % (a4 / max(a1, 1), a1 / 1e6, a4 / 1e6, t1 / 1000, t4 / 1000))
+    return None
 
 
 def run(b, ps, tier, seed):
     n_mut, n_rand = (1500, 1500) if tier == "quick" else (60000, 60000)
     cases = list(T.stream(seed, n_mut, n_rand))
-    cases += big_inputs(seed)
+    cases.append(("big:garbage", "big", garbage(seed, 4000)))
     violations = []
     t0 = time.time()
     impl, model, _ = ({}, {}, [])
@@ -69,6 +138,30 @@ def run(b, ps, tier, seed):
             {"property": PROP, "kind": "parse-not-total", "input_hex": small.encode("latin1", "replace").hex(),
              "input_text": small[:2000], "observed": obs[:300], "mutation": k,
              "replay_cmd": "bin/check C11 --replay <this file>"}))
+    # promptness: time must grow linearly with the size of one construct
+    growth = measure_growth(b, tier) if not b.probe_error else {}
+    known_lines, f19, f30 = [], [], []
+    kf = {r.get("id"): r for r in C.known_findings(PROP)}
+    for fam, row in sorted(growth.items()):
+        why = superlinear(row)
+        if not why:
+            continue
+        if fam in F30_FAMILIES and "F30" in kf:
+            f30.append("%s: %s" % (fam, why))
+            continue
+        if fam in F28_FAMILIES and "F28" in kf:
+            f19.append("%s: %s" % (fam, why))
+            continue
+        text = FAMILIES[fam](row[0] * 4)
+        violations.append(C.Violation(
+            "ParseString is not prompt on the construct family '%s': %s" % (fam, why),
+            {"property": PROP, "kind": "superlinear-parse-time", "family": fam, "n": row[0] * 4,
+             "input_hex": text.encode("latin1", "replace").hex() if len(text) < 400000 else "", "input_text": text[:300],
+             "measured": {"n": list(row[1]), "4n": list(row[2])}, "replay_cmd": "bin/check C11 --replay <this file>"}))
+    if f19:
+        known_lines.append(kf["F28"].get("line", "known: F28") + " [measured now: " + "; ".join(f19) + "]")
+    if f30:
+        known_lines.append(kf["F30"].get("line", "known: F30") + " [measured now: " + "; ".join(f30) + "]")
     # model side: by theorem the model never hangs; an EXN / HANG of the model means the model or its
     # fuel is wrong (reported as unproven, not as a failing input)
     model_bad = [(i, model[i]) for i, _, _ in cases if model and outcome_class(model.get(i, "MISSING")) != "result"]
@@ -78,22 +171,29 @@ def run(b, ps, tier, seed):
         "distinct_nontrivial": len({t for _, k, t in cases if len(t) > 8}),
         "rule": "texts = every examples/*.grits and every program snippet found in the repository's test files, "
                 "seeded single/double edits of them (token insert/delete/duplicate/swap, illegal characters, NUL, "
-                "truncation, comment openers/closers, byte replacement), random byte strings, token soup and 9 large "
-                "inputs (up to 32 kB, nesting depth 4000); non-trivial = longer than 8 bytes, distinct by content",
+                "truncation, comment openers/closers, byte replacement), random byte strings, token soup, one 32 kB garbage text, "
+                "and %d growth families (one construct repeated n and 4n times, n = %d: declarations, name lists, choice options, "
+                "branches, nesting, sequences, long labels/comments/whitespace, unterminated comment, illegal tail) measured (bytes allocated by the call - deterministic - and wall time) under a 60 s watchdog; "
+                "non-trivial = longer than 8 bytes, distinct by content" % (len(FAMILIES), GROWTH_N[tier if tier in GROWTH_N else "quick"]),
         "samples": [{"id": i, "kind": k, "text": t[:120], "impl": impl.get(i, "")[:60]} for i, k, t in cases[400:406]],
         "input_kinds": kinds,
         "distinct_texts": distinct,
         "impl_outcomes": {c: sum(1 for i, _, _ in cases if outcome_class(impl.get(i, "MISSING")) == c) for c in {outcome_class(v) for v in impl.values()}} if impl else {},
         "model_nonresults": model_bad[:5],
+        "growth": {fam: {"n": row[0], "wall_us_n": row[1][0], "wall_us_4n": row[2][0], "alloc_bytes_n": row[1][1], "alloc_bytes_4n": row[2][1],
+                         "text_bytes_4n": row[3], "verdict": row[2][2],
+                            "superlinear": superlinear(row)} for fam, row in sorted(growth.items())},
         "suite_wall_s": round(dt, 1),
     }
     if model_bad:
         violations.append(C.Violation("the model itself does not produce a result on %d inputs (fuel / model defect)" % len(model_bad),
                                       {"property": PROP, "kind": "unproven", "no_longer_checks": [{"what": "model parse_string totality on generated inputs", "detail": str(model_bad[:3])}]},
                                       found_input=False))
-    return {"violations": violations, "known": [], "coverage": cov,
+    cov["evaluations"] += 2 * len(growth)
+    return {"violations": violations, "known": known_lines, "coverage": cov,
             "assumptions": ["bufio/utf8 decoding is outside the model (bytes >= 0x80 are one class)",
-                            "wall-clock promptness is checked by a 5 s watchdog per input; the theorem bounds steps, not time",
+                            "the theorem bounds steps (scanner reads, driver iterations), not time: the cost of one step of the Go code (semantic actions) is measured, "
+                            "through growth families at n and 4n: bytes allocated per ParseString call (deterministic; factor > 8 = superlinear), a 60 s watchdog, and a 5 s watchdog per stream input",
                             "the error-recovery loop of the goyacc driver is modelled as abort (no state shifts `error`: checked on the regenerated tables)"],
             "trusted_extra": ["translator translate/lrtables.py (syntactic: array literals and constants of parser.y.go)",
                               "translator `probe scantables` (go/ast keyword literals + behavioural dump of the 256 byte classes)",
@@ -102,6 +202,18 @@ def run(b, ps, tier, seed):
 
 def replay(b, path):
     r = json.load(open(path))
+    if r.get("kind") == "superlinear-parse-time":
+        fam, n = r["family"], r["n"] // 4
+        cases = [("a", "", FAMILIES[fam](n)), ("b", "", FAMILIES[fam](4 * n))]
+        class _B:
+            probe = b.probe
+        saved = dict(GROWTH_N)
+        GROWTH_N["quick"] = n
+        row = measure_growth(_B, "quick", only=[fam])[fam]
+        GROWTH_N.update(saved)
+        why = superlinear(row)
+        print("family %s: n=%d -> %s, 4n -> %s: %s" % (fam, n, row[1], row[2], why or "linear"))
+        return 1 if why else 0
     if "input_hex" not in r:
         print("no concrete input in this replay file:", r.get("no_longer_checks"))
         return 1
